@@ -283,7 +283,9 @@ theorem depth_strict (V : Nat) (p : Nat → Nat) (hr : InRange V p) (d : List In
   rw [hmax] at this
   omega
 
-/-- the corrected loop stops only on such an unchanged sweep (or when its `V` sweeps are used up) -/
+/-- for an ARBITRARY parent array (cycles included) the corrected loop stops on such an unchanged
+    sweep or when its `V` sweeps are used up; on a forest the second alternative never decides —
+    `depth_from_leaves_converges` (Props/C12G) -/
 theorem depthLoop_fixed_or_exhausted (V : Nat) (p : Nat → Nat) (n : Nat) (d : List Int) :
     sweepL V p (depthLoop V p n d) = depthLoop V p n d ∨
       depthLoop V p n d = (sweepL V p)^[n] d := by
